@@ -53,6 +53,10 @@ def zernike_nm(n, m, N, rot=0):
      Returns:
         ndarray: The Zernike mode
      """
+    # (Python ints: numpy.sqrt(2*(n+1)) of an int8 / int16 order is evaluated in
+    # float16 / float32, and 2*(n+1) can wrap around)
+    n, m = int(n), int(m)
+
     coords = (numpy.arange(N) - N / 2. + 0.5) / (N / 2.)
     X, Y = numpy.meshgrid(coords, coords)
     R = numpy.sqrt(X**2 + Y**2)
